@@ -71,6 +71,8 @@ def inlined(func):
                 res = new
         except RecursionError:
             res = func
+        from .normalize import normalize
+        res = normalize(res)
     _inl_cache[key] = res
     _inl_cache[id(res)] = res
     return res
